@@ -72,3 +72,10 @@ Fixpoint mon_height_fold (step : nat) (ops outs : list val) (table : list (N * b
   | _, _ => []
   end.
 Definition mon_C13_votes (c impl : val) : val := VL (mon_height_fold 0 (vL c) (vL impl) [] [] 0%N).
+
+(* the same predicate reported for C01: a batch the hub gives up on the strength of an unattested height is refunded
+   while the custody can still pay it out *)
+Definition k_c01_height : val :=
+  VB (map Z.to_N [67;48;49;47;99;108;111;99;107;45;109;111;118;101;100;45;98;121;45;117;110;97;116;116;101;115;116;101;100;45;99;108;97;105;109]).
+Definition mon_C01_votes (c impl : val) : val :=
+  VL (map (fun v => match v with VL (_ :: r) => VL (k_c01_height :: r) | _ => v end) (vL (mon_C13_votes c impl))).
